@@ -39,10 +39,10 @@ type TxStep struct {
 	// the signatures kept (an intermediary tampering with a signed transaction).
 	SignedMsgs []MsgJSON           `json:"signed_msgs,omitempty"`
 	Signers    []simnet.SignerSpec `json:"signers"`
-	Fee      string              `json:"fee,omitempty"`
-	FeePayer string              `json:"fee_payer,omitempty"`
-	Gas      uint64              `json:"gas,omitempty"`
-	Memo     string              `json:"memo,omitempty"`
+	Fee        string              `json:"fee,omitempty"`
+	FeePayer   string              `json:"fee_payer,omitempty"`
+	Gas        uint64              `json:"gas,omitempty"`
+	Memo       string              `json:"memo,omitempty"`
 	// Exec wraps Msgs into one authz.MsgExec whose grantee is account Exec-1 (0 = no wrapping).
 	Exec int    `json:"exec,omitempty"`
 	Note string `json:"note,omitempty"`
@@ -645,6 +645,14 @@ func (w *World) applyCommit(dt int64) error {
 		}
 	}
 	return w.checkCommitted()
+}
+
+// SyncCommitted refreshes the committed snapshot the restart oracle compares with, after a
+// block the caller committed on the chain directly (scenario code outside Apply).
+func (w *World) SyncCommitted() {
+	if w.On("C10") {
+		w.commitDump, w.commitHash = w.allStoreDump(), w.C.App.LastCommitID().Hash
+	}
 }
 
 func (w *World) panicProp() string {
